@@ -405,11 +405,12 @@ def impl(c):
             return tf(r)
         _, which, ver, ipv, ipform, cands = a
         ip = IPAddress(ipv, ver) if ipform == 'obj' else _astr(ver, ipv)
-        objs = [_cand_obj(k) for k in cands]
+        # asked twice with freshly built candidates; the blocks of the first answer are moved in place in between
         if which == 'all':
-            return plist(_shown(n) for n in netaddr.all_matching_cidrs(ip, objs))
+            return plist(_shown(n) for n in common.twice(
+                lambda: netaddr.all_matching_cidrs(ip, common.as_iterable([_cand_obj(k) for k in cands]))))
         f = netaddr.smallest_matching_cidr if which == 'small' else netaddr.largest_matching_cidr
-        r = f(ip, objs)
+        r = common.twice(lambda: [f(ip, common.as_iterable([_cand_obj(k) for k in cands]))])[0]
         return '-' if r is None else _shown(r)
     except Exception as e:
         return '!' + errname(e)
